@@ -291,6 +291,17 @@ theorem draw_text (K : Ctx W cb) (hW : WOk W) (hS : SrcOk W K.src) {j : Nat} (hj
     refine ⟨Ri', ?_, hline'⟩
     simpa [afterText, Cell.isWide, hwide'] using h3
 
+theorem blank_not_occ {c : Cell} (h : view c = blankV) : c.hasContents = false ∧ c.cont = false := by
+  simp only [view, blankV, blankA, View.mk.injEq] at h
+  exact ⟨by simp [Cell.hasContents, h.1], h.2.2.1⟩
+
+theorem wide_has_contents {c : Cell} (hok : cellOk W c = true) (hw : c.wide = true) : c.hasContents = true := by
+  by_cases hl : c.len = 0
+  · simp only [cellOk, Bool.and_eq_true, hl, List.take_zero] at hok
+    have : c.wide = false := by simpa [Utf8.fromUtf8] using hok.2.2
+    rw [hw] at this; simp at this
+  · simp [Cell.hasContents]; omega
+
 /-- the invariant of the cell loop -/
 structure J (K : Ctx W cb) (w : Bool) (j : Nat) (st : Row.FmtSt) : Prop where
   prow : w = true → st.prevPos.row = K.i
@@ -298,6 +309,9 @@ structure J (K : Ctx W cb) (w : Bool) (j : Nat) (st : Row.FmtSt) : Prop where
   w0 : j = 0 → st.prevWasWide = false
   A : st.prevWasWide = true → st.erase = none ∧ Drawn K (j + 1) st
   B : st.prevWasWide = false → Inv1 K j st
+  pp : ∀ (_ : 0 < j) (hl : j ≤ K.src.length),
+    ((K.src[j - 1]'(by omega)).hasContents = true ∨ (K.src[j - 1]'(by omega)).cont = true) →
+    st.erase = none ∧ st.prevPos = ⟨K.i, if st.prevWasWide then j + 1 else j⟩
 
 theorem inv1_congr (K : Ctx W cb) {j : Nat} {st st' : Row.FmtSt} (h : Inv1 K j st) (ho : st'.out = st.out)
     (hp : st'.prevPos = st.prevPos) (ha : st'.prevAttrs = st.prevAttrs) (he : st'.erase = st.erase) : Inv1 K j st' := by
@@ -321,7 +335,14 @@ theorem emit_inv (K : Ctx W cb) (hW : WOk W) (hS : SrcOk W K.src) {j : Nat} (hj 
     have hat : K.src[j].attrs = Attrs.default := by
       simp only [view, blankV, blankA, View.mk.injEq] at hv; exact hv.2.2.2.1
     simp only [hd, Bool.not_true, C03.emit, Bool.false_eq_true, ↓reduceIte, pure_eq_ok]
-    refine ⟨st2, rfl, ⟨hrow2, ?_, ?_, ?_, ?_⟩⟩
+    refine ⟨st2, rfl, ⟨hrow2, ?_, ?_, ?_, ?_, ?_⟩⟩
+    rotate_left 4
+    · intro _ _ hc
+      have := blank_not_occ hv
+      simp only [Nat.add_sub_cancel] at hc
+      rcases hc with hc | hc
+      · rw [this.1] at hc; simp at hc
+      · rw [this.2] at hc; simp at hc
     · intro _ _; simp [hw2', hnw]
     · intro h0; omega
     · intro h'; rw [hw2', hnw] at h'; simp at h'
@@ -354,7 +375,12 @@ theorem emit_inv (K : Ctx W cb) (hW : WOk W) (hS : SrcOk W K.src) {j : Nat} (hj 
         · rw [hh] at h2; simp at h2
       have hdj : Drawn K j st2 := by have := hI2.drawn; simpa [esK, hnone] using this
       obtain ⟨e3, hd3⟩ := draw_text K hW hS hj hdj hh w hrow2
-      refine ⟨_, e3, ⟨fun _ => rfl, ?_, ?_, ?_, ?_⟩⟩
+      refine ⟨_, e3, ⟨fun _ => rfl, ?_, ?_, ?_, ?_, ?_⟩⟩
+      rotate_left 4
+      · intro _ _ _
+        refine ⟨by simpa [afterText] using hnone, ?_⟩
+        simp only [afterText, hw2', Cell.isWide]
+        by_cases hwd : K.src[j].wide = true <;> simp [hwd]
       · intro _ _; simp [afterText, hw2']
       · intro h0; omega
       · intro h'
@@ -377,7 +403,13 @@ theorem emit_inv (K : Ctx W cb) (hW : WOk W) (hS : SrcOk W K.src) {j : Nat} (hj 
       rcases hdisj with hnone | ⟨e, a, hea, _, haa⟩
       · simp only [hnone, Option.isNone_none, ↓reduceIte, pure_eq_ok]
         have hdj : Drawn K j st2 := by have := hI2.drawn; simpa [esK, hnone] using this
-        refine ⟨_, rfl, ⟨fun hw => hrow2 hw, ?_, ?_, ?_, ?_⟩⟩
+        refine ⟨_, rfl, ⟨fun hw => hrow2 hw, ?_, ?_, ?_, ?_, ?_⟩⟩
+        rotate_left 4
+        · intro _ _ hc
+          simp only [Nat.add_sub_cancel] at hc
+          rcases hc with hc | hc
+          · rw [hh'] at hc; simp at hc
+          · rw [hnc] at hc; simp at hc
         · intro _ _; simp [hw2', hnw]
         · intro h0; omega
         · intro h'; simp only at h'; rw [hw2', hnw] at h'; simp at h'
@@ -394,7 +426,13 @@ theorem emit_inv (K : Ctx W cb) (hW : WOk W) (hS : SrcOk W K.src) {j : Nat} (hj 
             rw [hbv]; rfl
       · simp only [hea, Option.isNone_some, Bool.false_eq_true, ↓reduceIte, pure_eq_ok]
         obtain ⟨h1, h2, h3, h4⟩ := hI2.er e a hea
-        refine ⟨st2, rfl, ⟨hrow2, ?_, ?_, ?_, ?_⟩⟩
+        refine ⟨st2, rfl, ⟨hrow2, ?_, ?_, ?_, ?_, ?_⟩⟩
+        rotate_left 4
+        · intro _ _ hc
+          simp only [Nat.add_sub_cancel] at hc
+          rcases hc with hc | hc
+          · rw [hh'] at hc; simp at hc
+          · rw [hnc] at hc; simp at hc
         · intro _ _; simp [hw2', hnw]
         · intro h0; omega
         · intro h'; rw [hw2', hnw] at h'; simp at h'
@@ -431,7 +469,13 @@ theorem fmtStep_inv (K : Ctx W cb) (hW : WOk W) (hS : SrcOk W K.src) {j : Nat} (
     have hcont : K.src[j].cont = true := by
       rw [hS.cont_iff j hj, if_neg (by omega), ← hprev, hpw]
     have hnw : K.src[j].wide = false := (cellOk_cont W _ hok hcont).1
-    refine ⟨_, rfl, ⟨fun hw => h.prow hw, ?_, ?_, ?_, ?_⟩⟩
+    refine ⟨_, rfl, ⟨fun hw => h.prow hw, ?_, ?_, ?_, ?_, ?_⟩⟩
+    rotate_left 4
+    · intro _ _ _
+      have hwprev : K.src[j - 1].wide = true := by rw [← hprev]; exact hpw
+      have := h.pp hj0 (Nat.le_of_lt hj) (Or.inl (wide_has_contents (hS.cells_ok _ (List.getElem_mem (by omega))) hwprev))
+      refine ⟨he, ?_⟩
+      rw [this.2, hpw]; simp
     · intro _ _; simp [hnw]
     · intro h0; omega
     · intro h'; simp at h'
@@ -520,6 +564,21 @@ theorem finish_drawn (K : Ctx W cb) (hS : SrcOk W K.src) (hne : 0 < K.src.length
     simp only [hp', ha']
     exact this
 
+/-- where the emitter's cursor ends when the last column of the line is occupied: past the last column -/
+theorem finish_pos (K : Ctx W cb) (hS : SrcOk W K.src) (hne : 0 < K.src.length) {st : Row.FmtSt} (w : Bool)
+    (h : J K w K.src.length st)
+    (hocc : (K.src[K.src.length - 1]'(by omega)).hasContents = true ∨ (K.src[K.src.length - 1]'(by omega)).cont = true) :
+    (Row.fmtFinish K.src.length K.i w st).prevPos = ⟨K.i, K.src.length⟩ := by
+  have hpw : st.prevWasWide = false := by
+    by_cases hp : st.prevWasWide = true
+    · have := h.ww hne (Nat.le_refl _)
+      rw [hp] at this
+      obtain ⟨hj', _⟩ := hS.wide_next (K.src.length - 1) (by omega) this.symm
+      omega
+    · simpa using hp
+  obtain ⟨he, hp⟩ := h.pp hne (Nat.le_refl _) hocc
+  simp only [Row.fmtFinish, he, hp, hpw, Bool.false_eq_true, ↓reduceIte]
+
 /-- a line that shows all of the source: cell for cell the same view -/
 theorem Line.full {src : List Cell} {Ri : Row} (h : Line src src.length Ri) :
     Ri.cells.map view = src.map view ∧ Ri.wrapped = false := by
@@ -539,6 +598,11 @@ theorem shape_self (r0 : RS) (i : Nat) (Ri : Row) (h : r0.g.rows[i]? = some Ri) 
   simp only at h this ⊢
   rw [this]
 
+/-- the last column of the line holds something: text, or the second half of a wide character -/
+def lastOcc (cells : List Cell) : Prop :=
+  ∃ (h : 0 < cells.length), (cells[cells.length - 1]'(by omega)).hasContents = true ∨
+    (cells[cells.length - 1]'(by omega)).cont = true
+
 /-- the emitter state at the start of a line that is not wrapped onto -/
 def start (pp : Pos) (pa : Attrs) : Row.FmtSt :=
   { prevWasWide := false, prevPos := pp, prevAttrs := pa, erase := none, out := [] }
@@ -552,11 +616,13 @@ theorem row_formatted_draws (hW : WOk W) (p0 : Parser) (hr : Ready p0) (hcv : Ca
     (hS : SrcOk W sr.cells) (Ri0 : Row) (hrow : (rsOf p0.ws).g.rows[i]? = some Ri0) (hblank : Line sr.cells 0 Ri0) :
     ∃ out np na, sr.writeContentsFormatted 0 sr.cells.length i false
         (some (rsOf p0.ws).g.pos) (some (rsOf p0.ws).pen) = .ok (out, np, na) ∧
-      ∃ Ri, Emitted W cb p0 out (shape (rsOf p0.ws) i Ri np na) ∧ Line sr.cells sr.cells.length Ri := by
+      (∃ Ri, Emitted W cb p0 out (shape (rsOf p0.ws) i Ri np na) ∧ Line sr.cells sr.cells.length Ri) ∧
+      (lastOcc sr.cells → np = ⟨i, sr.cells.length⟩) := by
   let K : Ctx W cb := ⟨p0, hr, rsOf p0.ws, hcv, i, hi, sr.cells, hlen⟩
   have hne : 0 < sr.cells.length := by rw [hlen]; exact hcv.cols_pos
   have hJ0 : J K false 0 (start (rsOf p0.ws).g.pos (rsOf p0.ws).pen) := by
-    refine ⟨fun h => by simp at h, fun h => absurd h (Nat.lt_irrefl 0), fun _ => rfl, fun h => by simp [start] at h, fun _ => ⟨?_, ?_⟩⟩
+    refine ⟨fun h => by simp at h, fun h => absurd h (Nat.lt_irrefl 0), fun _ => rfl, fun h => by simp [start] at h, fun _ => ⟨?_, ?_⟩,
+      fun h => absurd h (Nat.lt_irrefl 0)⟩
     · refine ⟨Ri0, ?_, hblank⟩
       show Emitted W cb p0 [] (shape (rsOf p0.ws) i Ri0 (rsOf p0.ws).g.pos (rsOf p0.ws).pen)
       rw [shape_self _ _ _ hrow]
@@ -573,7 +639,7 @@ theorem row_formatted_draws (hW : WOk W) (p0 : Parser) (hr : Ready p0) (hcv : Ca
       (start (rsOf p0.ws).g.pos (rsOf p0.ws).pen) = .ok st' := e
   simp only [start] at e'
   simp only [Row.cols, e', ok_bind, pure_eq_ok]
-  exact ⟨_, _, _, rfl, hfin⟩
+  exact ⟨_, _, _, rfl, hfin, fun ⟨_, ho⟩ => finish_pos K hS hne false hJ ho⟩
 
 /-! ### wrap-through: the line above is wrapped onto this one -/
 
@@ -820,7 +886,12 @@ theorem pending_step (K : Ctx W cb) (hW : WOk W) (hS : SrcOk W K.src) (X : WCtx 
     by_cases hh : K.src[0].hasContents = true
     · obtain ⟨e3, hd3⟩ := draw_text_wrap K hW hS X hne (st := pendSt K pa K.src[0].isWide none)
         rfl (hemP _ _) hl0 hh
-      refine ⟨_, e3, Or.inr ⟨fun _ => rfl, ?_, fun h0 => by omega, ?_, ?_⟩⟩
+      refine ⟨_, e3, Or.inr ⟨fun _ => rfl, ?_, fun h0 => by omega, ?_, ?_, ?_⟩⟩
+      rotate_left 3
+      · intro _ _ _
+        refine ⟨by simp [afterTextW, pendSt], ?_⟩
+        simp only [afterTextW, pendSt, Cell.isWide]
+        by_cases hwd : K.src[0].wide = true <;> simp [hwd] <;> exact ⟨rfl, rfl⟩
       · intro _ _; simp [afterTextW, pendSt, Cell.isWide]; rfl
       · intro h'
         have hwide : K.src[0].wide = true := by simpa [afterTextW, pendSt, Cell.isWide] using h'
@@ -1027,7 +1098,8 @@ theorem preamble_inv (K : Ctx W cb) (hW : WOk W) (X : WCtx K) (hne : 0 < K.src.l
       simp only [hpos, hsz, hmin]
       rw [e1]; rfl)
   refine ⟨fun _ => rfl, fun h => absurd h (Nat.lt_irrefl 0), fun _ => rfl, fun h => by simp [preamble] at h,
-    fun _ => ⟨⟨Ri', ?_, line_unskip hline' hne hv0⟩, fun e a h => by simp [preamble] at h⟩⟩
+    fun _ => ⟨⟨Ri', ?_, line_unskip hline' hne hv0⟩, fun e a h => by simp [preamble] at h⟩,
+    fun h => absurd h (Nat.lt_irrefl 0)⟩
   show Emitted W cb K.p0 (preamble K.i pa).out (shape (K.wrapped X).r0 K.i Ri' ⟨K.i, 0⟩ Attrs.default)
   simpa [preamble, List.append_assoc] using h3
 
@@ -1066,7 +1138,8 @@ theorem row_formatted_draws_wrap (hW : WOk W) (p0 : Parser) (hr : Ready p0) (hcv
     (hpos : (rsOf p0.ws).g.pos = ⟨i - 1, (rsOf p0.ws).g.size.cols⟩) :
     ∃ out np na, sr.writeContentsFormatted 0 sr.cells.length i true
         (some (rsOf p0.ws).g.pos) (some (rsOf p0.ws).pen) = .ok (out, np, na) ∧
-      ∃ Ri, Emitted W cb p0 out (shape (wrapBase (rsOf p0.ws) i Rp) i Ri np na) ∧ Line sr.cells sr.cells.length Ri := by
+      (∃ Ri, Emitted W cb p0 out (shape (wrapBase (rsOf p0.ws) i Rp) i Ri np na) ∧ Line sr.cells sr.cells.length Ri) ∧
+      (lastOcc sr.cells → np = ⟨i, sr.cells.length⟩) := by
   let K : Ctx W cb := ⟨p0, hr, rsOf p0.ws, hcv, i, hi, sr.cells, hlen⟩
   let X : WCtx K := ⟨hi1, Rp, hp, last, hlast, hocc⟩
   have hne : 0 < sr.cells.length := by rw [hlen]; exact hcv.cols_pos
@@ -1087,7 +1160,7 @@ theorem row_formatted_draws_wrap (hW : WOk W) (p0 : Parser) (hr : Ready p0) (hcv
         = .ok st' := e
     rw [wcf_preamble sr i _ _ hfd, hwin, e']
     simp only [ok_bind, pure_eq_ok]
-    exact ⟨_, _, _, rfl, hfin⟩
+    exact ⟨_, _, _, rfl, hfin, fun ⟨_, ho⟩ => finish_pos (K.wrapped X) hS hne true hJ ho⟩
   · -- otherwise the first thing written on this line forces it
     have hfd' : sr.firstIsDefault 0 = false := by simpa using hfd
     have hfirst : ∀ h : 0 < sr.cells.length, sr.cells[0].eq Cell.new = false := by
@@ -1096,14 +1169,30 @@ theorem row_formatted_draws_wrap (hW : WOk W) (p0 : Parser) (hr : Ready p0) (hcv
     have hP0 : Pend K (rsOf p0.ws).pen 0 (pendSt K (rsOf p0.ws).pen false none) :=
       ⟨rfl, rfl, rfl, rfl, Or.inl ⟨rfl, rfl⟩⟩
     obtain ⟨st', e, hend⟩ := pending_fold K hW hS X hem0 hblank hfirst sr.cells 0 _ (by rfl) (Nat.zero_le _) hP0
-    have hfin : Drawn (K.wrapped X) sr.cells.length (Row.fmtFinish sr.cells.length i true st') := by
+    have hfin : Drawn (K.wrapped X) sr.cells.length (Row.fmtFinish sr.cells.length i true st') ∧
+        (lastOcc sr.cells → (Row.fmtFinish sr.cells.length i true st').prevPos = ⟨i, sr.cells.length⟩) := by
       rcases hend with hP | hJ
-      · exact finish_pending K hW X hne hem0 hblank hP
-      · exact finish_drawn (K.wrapped X) hS hne true hJ
+      · refine ⟨finish_pending K hW X hne hem0 hblank hP, ?_⟩
+        rintro ⟨_, ho⟩
+        -- every cell of the line is blank: the last column is not occupied
+        exfalso
+        have hKs : K.src = sr.cells := rfl
+        rcases hP.er with ⟨h0, _⟩ | ⟨a, _, _, _, hvs⟩
+        · rw [hKs] at h0; omega
+        · have := hvs (sr.cells.length - 1) (by rw [hKs]; omega) (by rw [hKs]; omega)
+          simp only [view, blankA, View.mk.injEq] at this
+          have h1 := this.1
+          have h2 := this.2.2.1
+          rcases ho with ho | ho
+          · have hh : (sr.cells[sr.cells.length - 1]'(by omega)).len = 0 := h1
+            simp [Cell.hasContents, hh] at ho
+          · have hh : (sr.cells[sr.cells.length - 1]'(by omega)).cont = false := h2
+            rw [hh] at ho; simp at ho
+      · exact ⟨finish_drawn (K.wrapped X) hS hne true hJ, fun ⟨_, ho⟩ => finish_pos (K.wrapped X) hS hne true hJ ho⟩
     have e' : (C14.enumFrom 0 sr.cells).foldlM (Row.fmtStep sr.cells.length i true)
         (start ⟨i - 1, (rsOf p0.ws).g.size.cols⟩ (rsOf p0.ws).pen) = .ok st' := e
     rw [wcf_pending sr i _ _ hfd', hwin, hpos, e']
     simp only [ok_bind, pure_eq_ok]
-    exact ⟨_, _, _, rfl, hfin⟩
+    exact ⟨_, _, _, rfl, hfin.1, hfin.2⟩
 
 end Vt.RowDraw
